@@ -253,6 +253,36 @@ def resign_variant(rng, tx):
     return raw
 
 
+def near_variant(rng, tx):
+    """a transaction that differs from tx in one small field only (last byte of the lock
+    time, the version, one output's value, one input's sequence number or the last byte of
+    its outpoint): same length, same beginning or same end, another transaction"""
+    ins, outs = list(tx["ins"]), list(tx["outs"])
+    version, locktime = tx["version"], tx["locktime"]
+    how = rng.choice(["locktime", "locktime", "version", "value", "sequence", "outpoint"])
+    if how == "value" and not outs:
+        how = "locktime"
+    if how == "locktime":
+        locktime ^= rng.choice([1, 0x80, 0x01000000, 0x80000000])
+    elif how == "version":
+        version = 1 if version != 1 else 2
+    elif how == "value":
+        k = rng.randrange(len(outs))
+        outs[k] = (outs[k][0] ^ rng.choice([1, 1 << 56]), outs[k][1])
+    elif how == "sequence":
+        k = rng.randrange(len(ins))
+        ins[k] = ins[k][:3] + (ins[k][3] ^ 1,)
+    else:
+        k = rng.randrange(len(ins))
+        t = bytearray(ins[k][0])
+        t[rng.choice([0, -1])] ^= 1
+        ins[k] = (bytes(t),) + ins[k][1:]
+    out = dict(tx, ins=ins, outs=outs, version=version, locktime=locktime)
+    out["raw"] = ser_tx(version, ins, outs, locktime, None)
+    assert len(out["raw"]) == len(ser_tx(tx["version"], tx["ins"], tx["outs"], tx["locktime"], None))
+    return out
+
+
 def gen_sized_tx(rng, total_len=None, unsigned_len=None):
     """a transaction (one or more inputs: OP_0, a 72-byte signature push, a redeem-script
     push) whose serialised length - or whose length once the signatures are cleared - is
